@@ -87,20 +87,21 @@ Fixpoint sx_eqb (a b : sx) : bool :=
   end.
 Definition p_equal_p (a b : sx) : res sx := Ok (Bool (sx_eqb a b)).
 
-(** memq / assq (init-7.scm / opcodes): first tail whose car is eq? / first pair whose car is eq?.
-    chibi's memq stops silently at an improper tail; assq skips... we fail closed on both. *)
+(** memq / assq are the C opcodes sexp_memq_op / sexp_assq_op (sexp.c:998-1014): walk while the list
+    is a pair, compare by identity; an improper tail ends the walk with #f; assq skips elements that
+    are not pairs.  (Identity of two pairs / two strings is unknown to a value-level model: [p_eq_p]
+    fails closed there.) *)
 Fixpoint p_memq (x ls : sx) : res sx :=
   match ls with
-  | Nil => Ok (Bool false)
   | Pair a d => bind (p_eq_p x a) (fun t => if truthy t then Ok ls else p_memq x d)
-  | _ => Err (TypeError "memq: improper list")
+  | _ => Ok (Bool false)
   end.
 
 Fixpoint p_assq (x ls : sx) : res sx :=
   match ls with
-  | Nil => Ok (Bool false)
   | Pair (Pair k v) d => bind (p_eq_p x k) (fun t => if truthy t then Ok (Pair k v) else p_assq x d)
-  | _ => Err (TypeError "assq: not an association list")
+  | Pair _ d => p_assq x d
+  | _ => Ok (Bool false)
   end.
 
 (** map with one list (init-7.scm `map`), find (init-7.scm:677-681), filter *)
